@@ -16,6 +16,14 @@ The interpreter state is that of an application that has only imported celpy (de
 
 Answer: {"id": …, "hold": ["bool:true", "err", "EXC RecursionError", …], "blocked": [thread numbers that neither reached
 their gate nor finished within the step timeout while an earlier thread was held — serialised by the library, not a failure]}.
+
+Round 3 — *hang diagnosis*.  The step-ordered scenarios ({"threads": …, "order": …}) are run by `run_threads` of this module
+(c05_worker's, plus): a step that does not come back is examined instead of merely timed out.  In a step-ordered scenario
+every other thread is idle *outside* the library between its steps, so a thread that WAITS there (its CPU clock stands still
+and its Python stack does not change over a window of seconds) waits for something no thread will ever give back: the step never
+returns.  That is an outcome of the implementation (`HANG <where>`), not a harness timeout; a thread that is merely slow
+(its CPU clock advances) still ends in `TimeoutError` = tool timeout.  The same diagnosis is applied to a hold scenario's threads
+that are still not done after every thread has been released.
 """
 from __future__ import annotations
 
@@ -27,6 +35,51 @@ from . import c05_worker as w
 
 HOLD_TIMEOUT = 20.0
 BLOCK_TIMEOUT = 10.0
+HANG_GRACE = 3.0          # seconds a step may take before its thread is examined
+HANG_WINDOW = 3.0         # the examined thread must not use the CPU nor move for this long (twice in a row)
+STEP_LIMIT = 60.0
+
+
+def _stack_sig(ident):
+    """(signature, description) of a thread's Python stack: the code objects and instruction offsets of all its frames"""
+    import os
+    f = sys._current_frames().get(ident)
+    sig, where = [], []
+    while f is not None:
+        sig.append((id(f.f_code), f.f_lasti))
+        fn = f.f_code.co_filename
+        if os.sep + "celpy" + os.sep in fn and len(where) < 4:
+            where.append(f"{os.path.basename(fn)}:{f.f_code.co_name}")
+        f = f.f_back
+    return tuple(sig), " <- ".join(where) or "outside celpy"
+
+
+def diagnose_wait(thread, finished, limit):
+    """wait until `finished()` (a callable polling with a timeout: finished(seconds) -> bool) says the thread's work is done.
+    Returns None when it is done; "HANG <where>" when the thread provably waits (no CPU time used, stack unchanged, in two
+    consecutive windows); raises TimeoutError when `limit` seconds pass with the thread still working."""
+    t0 = time.time()
+    if finished(HANG_GRACE):
+        return None
+    try:
+        clk = time.pthread_getcpuclockid(thread.ident)
+    except Exception:  # noqa
+        clk = None
+    still = 0
+    while time.time() - t0 < limit:
+        c0 = time.clock_gettime(clk) if clk is not None else None
+        s0, _ = _stack_sig(thread.ident)
+        if finished(HANG_WINDOW):
+            return None
+        c1 = time.clock_gettime(clk) if clk is not None else None
+        s1, where = _stack_sig(thread.ident)
+        if clk is not None and c1 - c0 < 0.001 and s0 == s1 and s0:
+            still += 1
+            if still >= 2:
+                return "HANG " + where
+        else:
+            still = 0
+    raise TimeoutError("step did not finish (the thread was still working)")
 
 
 def run_hold(spec):
@@ -91,7 +144,64 @@ def run_hold(spec):
         go[i].set()
     for i in range(n):
         done[i].wait(max(0.1, deadline - time.time()))
+    for i in range(n):           # every thread has been released: one that still waits (no CPU, no movement) will never return
+        if res[i] is None and not done[i].is_set():
+            try:
+                h = diagnose_wait(ths[i], done[i].wait, 2 * HANG_WINDOW + HANG_GRACE + 1)
+            except TimeoutError:
+                h = None
+            if h and res[i] is None:
+                res[i] = h
     return {"hold": [r if r is not None else "HARNESS-TIMEOUT" for r in res], "blocked": blocked}
+
+
+def run_threads(threads, order):
+    """c05_worker.run_threads with the hang diagnosis: per thread [[model, rich], ...]; a step that hangs is recorded as
+    ["HANG", "HANG <where> …"] and ends the scenario (the steps after it are not run)"""
+    import queue
+    n = len(threads)
+    inq = [queue.Queue() for _ in range(n)]
+    outq = queue.Queue()
+
+    def worker(t):
+        h = w.History()
+        while True:
+            op = inq[t].get()
+            if op is None:
+                return
+            outq.put((t, h.step(op)))
+    ths = [threading.Thread(target=worker, args=(t,), daemon=True) for t in range(n)]
+    for t in ths:
+        t.start()
+    res = [[] for _ in range(n)]
+    pos = [0] * n
+    todo = [t for t in order] + [t for t in range(n) for _ in range(len(threads[t]))]     # + whatever the order left over
+    for t in todo:
+        if pos[t] >= len(threads[t]):
+            continue
+        inq[t].put(threads[t][pos[t]])
+        pos[t] += 1
+        got = []
+
+        def finished(seconds):
+            try:
+                got.append(outq.get(timeout=seconds))
+                return True
+            except queue.Empty:
+                return False
+        try:
+            hang = diagnose_wait(ths[t], finished, STEP_LIMIT)
+        except TimeoutError:
+            raise TimeoutError(f"step of thread {t} did not finish")
+        if hang:
+            res[t].append(["HANG", hang + " — the step never returns: the thread waits (no CPU time used, stack unchanged) while "
+                           "every other thread is idle outside the library"])
+            return res
+        tt, r = got[0]
+        res[tt].append(r)
+    for t in range(n):
+        inq[t].put(None)
+    return res
 
 
 _c05_run_job = w.run_job
@@ -102,6 +212,8 @@ def run_job(job):
         out = run_hold(job["hold"])
         out["id"] = job["id"]
         return out
+    if "threads" in job:
+        return {"id": job["id"], "tobs": run_threads(job["threads"], job["order"])}
     return _c05_run_job(job)
 
 
